@@ -1,7 +1,151 @@
 (* C07 — DFT-domain products equal exact negacyclic convolution.  Pinned statements only. *)
-From PV Require Import Base.MachineInt Model.Znx Model.Limbs Model.Ring Model.DftAbs Proofs.C07Dft.
+From PV Require Import Base.MachineInt Model.Znx Model.Limbs Model.Ring Model.DftAbs Model.C07Ntt120 Model.C07Run.
+From PV Require Import Proofs.C07Dft Proofs.C07Ring Proofs.C07Shape Proofs.C07Round.
 Open Scope Z_scope.
 
 Theorem C07_dft_select_length : forall n rsz step offset a, length (dft_select n rsz step offset a) = rsz.
 Proof. exact dft_select_length. Qed.
 Print Assumptions C07_dft_select_length.
+
+(* ------------------------------------------------------------------------------------------------------ *)
+(* A1: pmul is multiplication in Z[X]/(X^n+1) *)
+Theorem C07_pmul_spec : forall (a b : list Z) (k : nat),
+  length b = length a -> (k < length a)%nat ->
+  nth k (pmul a b) 0 = zsum (fun i => nthZ a i * ext' b (Z.of_nat k - Z.of_nat i)) (length a).
+Proof. exact pmul_spec. Qed.
+Print Assumptions C07_pmul_spec.
+Example C07_pmul_spec_ex : pmul [1; 2; 3; 4] [5; 6; 7; 8] = [-56; -36; 2; 60] /\ ext' [5; 6; 7; 8] (-1) = -8.
+Proof. split; reflexivity. Qed.
+
+(* A2: ring laws *)
+Theorem C07_pmul_comm : forall a b, length b = length a -> pmul a b = pmul b a.
+Proof. exact pmul_comm. Qed.
+Print Assumptions C07_pmul_comm.
+
+Theorem C07_pmul_assoc : forall a b c, length b = length a -> length c = length a -> pmul (pmul a b) c = pmul a (pmul b c).
+Proof. exact pmul_assoc. Qed.
+Print Assumptions C07_pmul_assoc.
+Example C07_pmul_assoc_ex : pmul (pmul [1; -2] [3; 4]) [5; -6] = pmul [1; -2] (pmul [3; 4] [5; -6]).
+Proof. reflexivity. Qed.
+
+Theorem C07_pmul_padd_distr_l : forall a b c, length b = length a -> length c = length a ->
+  pmul a (padd b c) = padd (pmul a b) (pmul a c).
+Proof. exact pmul_padd_distr_l. Qed.
+Print Assumptions C07_pmul_padd_distr_l.
+
+Theorem C07_pmul_padd_distr_r : forall a b c, length b = length a -> length c = length a ->
+  pmul (padd a b) c = padd (pmul a c) (pmul b c).
+Proof. exact pmul_padd_distr_r. Qed.
+Print Assumptions C07_pmul_padd_distr_r.
+
+Theorem C07_pmul_psub_distr_l : forall a b c, length b = length a -> length c = length a ->
+  pmul a (psub b c) = psub (pmul a b) (pmul a c).
+Proof. exact pmul_psub_distr_l. Qed.
+Print Assumptions C07_pmul_psub_distr_l.
+
+Theorem C07_pmul_psub_distr_r : forall a b c, length b = length a -> length c = length a ->
+  pmul (psub a b) c = psub (pmul a c) (pmul b c).
+Proof. exact pmul_psub_distr_r. Qed.
+Print Assumptions C07_pmul_psub_distr_r.
+
+Theorem C07_pmul_pzero : forall a, pmul a (pzero (length a)) = pzero (length a) /\ pmul (pzero (length a)) a = pzero (length a).
+Proof. intros a; split; [apply pmul_pzero_r|apply pmul_pzero_l]. Qed.
+Print Assumptions C07_pmul_pzero.
+
+Theorem C07_pmul_one : forall a, (1 <= length a)%nat -> pmul (pone (length a)) a = a /\ pmul a (pone (length a)) = a.
+Proof. intros a H; split; [apply pmul_one_l|apply pmul_one_r]; exact H. Qed.
+Print Assumptions C07_pmul_one.
+Example C07_pmul_one_ex : pone 3 = [1; 0; 0] /\ pmul (pone 1) [7] = [7].
+Proof. split; reflexivity. Qed.
+
+Theorem C07_pmul_monomial : forall a p, (p < length a)%nat -> pmul (xpow (length a) p) a = monomial_mul' (Z.of_nat p) a.
+Proof. exact pmul_monomial. Qed.
+Print Assumptions C07_pmul_monomial.
+Example C07_pmul_monomial_ex : xpow 4 1 = [0; 1; 0; 0] /\ monomial_mul' 1 [1; 2; 3; 4] = [-4; 1; 2; 3].
+Proof. split; reflexivity. Qed.
+
+(* A3: shape theorems *)
+Theorem C07_dft_select_spec : forall n rsz step offset a j, (j < rsz)%nat ->
+  lim (dft_select n rsz step offset a) j =
+  if Nat.ltb j (Nat.min rsz (ceil_div (length a) step)) && Nat.ltb (offset + j * step) (length a)
+  then lim a (offset + j * step) else pzero n.
+Proof. exact dft_select_spec. Qed.
+Print Assumptions C07_dft_select_spec.
+
+Theorem C07_dft_select_natural : forall n rsz step offset a j, (1 <= step)%nat -> (j < rsz)%nat ->
+  lim (dft_select n rsz step offset a) j = limz n a (offset + j * step).
+Proof. exact dft_select_natural. Qed.
+Print Assumptions C07_dft_select_natural.
+
+Theorem C07_dft_select_past_end : forall n rsz step offset a j, (1 <= step)%nat -> (j < rsz)%nat ->
+  (length a <= offset + j * step)%nat -> lim (dft_select n rsz step offset a) j = pzero n.
+Proof. exact dft_select_past_end. Qed.
+Print Assumptions C07_dft_select_past_end.
+Example C07_dft_select_ex : dft_select 2 3 2 1 [[1; 2]; [3; 4]; [5; 6]; [7; 8]] = [[3; 4]; [7; 8]; [0; 0]].
+Proof. reflexivity. Qed.
+
+Theorem C07_dft_add_limbwise : forall n rsz a b j, wf n a -> wf n b -> (j < rsz)%nat ->
+  lim (dft_add n rsz a b) j = padd (limz n a j) (limz n b j).
+Proof. exact dft_add_limbwise. Qed.
+Print Assumptions C07_dft_add_limbwise.
+
+Theorem C07_dft_sub_limbwise : forall n rsz a b j, wf n a -> wf n b -> (j < rsz)%nat ->
+  lim (dft_sub n rsz a b) j = psub (limz n a j) (limz n b j).
+Proof. exact dft_sub_limbwise. Qed.
+Print Assumptions C07_dft_sub_limbwise.
+Example C07_dft_sub_ex : wf 2 [[1; 2]] /\ dft_sub 2 3 [[1; 2]] [[10; 20]; [30; 40]] = [[-9; -18]; [-30; -40]; [0; 0]].
+Proof. split; [intros [|j] H; cbn in *; [reflexivity|lia]|reflexivity]. Qed.
+
+Theorem C07_svp_is_product : forall n rsz s b j, (j < rsz)%nat ->
+  lim (svp_apply n rsz s b) j = if Nat.ltb j (length b) then pmul s (lim b j) else pzero n.
+Proof. exact svp_is_product. Qed.
+Print Assumptions C07_svp_is_product.
+
+Theorem C07_svp_coeff : forall n rsz s b j k, length s = n -> wf n b -> (j < rsz)%nat -> (j < length b)%nat -> (k < n)%nat ->
+  nth k (lim (svp_apply n rsz s b) j) 0 = zsum (fun i => nthZ s i * ext' (lim b j) (Z.of_nat k - Z.of_nat i)) n.
+Proof. exact svp_coeff. Qed.
+Print Assumptions C07_svp_coeff.
+
+Theorem C07_vmp_is_sum_of_row_products :
+  forall (n rcols rsz acols asz rows msize limb_offset : nat) (aflat : nat -> list Z) (mflat : nat -> nat -> list Z) (c : nat),
+  let row_max := Nat.min (acols * rows) (acols * asz) in
+  let off := (limb_offset * rcols)%nat in
+  let col_max := Nat.min (rcols * msize) (rcols * rsz + off) in
+  vmp n rcols rsz acols asz rows msize limb_offset aflat mflat c =
+  if Nat.ltb c (col_max - off)
+  then psum n (fun q => pmul (aflat q) (mflat q (c + off)%nat)) row_max
+  else pzero n.
+Proof. exact vmp_is_sum_of_row_products. Qed.
+Print Assumptions C07_vmp_is_sum_of_row_products.
+
+Theorem C07_vmp_coeff :
+  forall (n rcols rsz acols asz rows msize limb_offset : nat) (aflat : nat -> list Z) (mflat : nat -> nat -> list Z) (c k : nat),
+  let row_max := Nat.min (acols * rows) (acols * asz) in
+  let off := (limb_offset * rcols)%nat in
+  let col_max := Nat.min (rcols * msize) (rcols * rsz + off) in
+  (forall q, length (aflat q) = n) -> (forall q c', length (mflat q c') = n) ->
+  (c < col_max - off)%nat -> (k < n)%nat ->
+  nth k (vmp n rcols rsz acols asz rows msize limb_offset aflat mflat c) 0 =
+  zsum (fun q => zsum (fun i => nthZ (aflat q) i * ext' (mflat q (c + off)%nat) (Z.of_nat k - Z.of_nat i)) n) row_max.
+Proof. exact vmp_coeff. Qed.
+Print Assumptions C07_vmp_coeff.
+Example C07_vmp_ex :
+  vmp 1 1 2 1 2 2 2 0 (fun q => [Z.of_nat q + 1]) (fun q c => [10 * Z.of_nat q + Z.of_nat c + 1]) 1%nat = [2 + 2 * 12].
+Proof. reflexivity. Qed.
+
+Theorem C07_pairwise_identity : forall ai aj bi bj, length aj = length ai -> length bi = length ai -> length bj = length ai ->
+  psub (psub (pmul (padd ai aj) (padd bi bj)) (pmul ai bi)) (pmul aj bj) = padd (pmul ai bj) (pmul aj bi).
+Proof. exact pairwise_identity. Qed.
+Print Assumptions C07_pairwise_identity.
+
+(* A4: the numerical hypothesis the FFT64 claim rests on *)
+Theorem C07_fft_exact_if_close : forall v y s, 0 < s -> 2 * Z.abs (y - v * s) < s -> round_half y s = v.
+Proof. exact fft_exact_if_close. Qed.
+Print Assumptions C07_fft_exact_if_close.
+
+Theorem C07_fft_exact_if_close_even : forall v y s, 0 < s -> 2 * Z.abs (y - v * s) < s -> round_half_even y s = v.
+Proof. exact fft_exact_if_close_even. Qed.
+Print Assumptions C07_fft_exact_if_close_even.
+Example C07_round_ex : round_half (-7) 2 = -4 /\ round_half_even (-7) 2 = -4 /\ round_half 5 2 = 3 /\ round_half_even 5 2 = 2
+                       /\ 2 * Z.abs (-1000001 - (-1) * 1000000) < 1000000.
+Proof. repeat split; reflexivity. Qed.
